@@ -26,4 +26,17 @@ CHECKS["C14"] = {"text": "Proved on the model for every product/workflow, every 
     "displayed live state. Method: inductive invariant (CompOK) + the weaker history invariant carried across task-state changes, using the lifecycle "
     "monotonicity proved for C01.",
     "note": COMMON_NOTE, "technique": "Coq proof: inductive invariant over the phase functions + model/implementation correspondence (component and task states at all phases, component logs)"}
+CHECKS["C07"] = {"text": "Proved on the model, for every configuration, option set and run length: all per-step logs of the result of a run are maps of row "
+    "functions over one history of recorded rows (LogsAre), from which: each worker/facility cost entry is cost_per_time iff the same step is logged WORKING and 0 "
+    "otherwise; team = sum over members, workplace = sum over facilities, organization = teams + workplaces (syntactic equalities, same summation order as the code), "
+    "project cost list = organization's; everything is 0 at project-wide absence steps; and (up to Qeq) total project cost = sum over resources of rate x number of "
+    "steps logged WORKING (double-sum exchange).",
+    "note": COMMON_NOTE + " Costs are modelled as exact rationals; the correspondence compares them on dyadic inputs where binary64 is exact.",
+    "technique": "Coq proof: logs as maps over a ghost history, induction over the run + finite-sum algebra over Q; model/implementation correspondence on all cost logs and resource state logs"}
+CHECKS["C08"] = {"text": "Proved on the model: after a run with log initialisation every log of every object equals the map of its row function over the recorded rows of the "
+    "run's trace (entry k = live value when step k was recorded, with the display rule), their common length is project.time; a run without log initialisation appends "
+    "its rows; the alignment (all logs of length project.time) holds after ANY sequence of simulate / initialize calls with any flags and options. The clauses about "
+    "backward_simulate and reverse_log_information are not yet part of the model: they are checked by the oracle on the implementation only (partial).",
+    "note": COMMON_NOTE + " PARTIAL: backward simulation and log reversal are searched (oracle on implementation traces), not proved.",
+    "technique": "Coq proof: logs as maps over a ghost history, induction over traces and over operation sequences; oracle + correspondence on operation sequences"}
 NOT_APPLICABLE = {}
